@@ -724,3 +724,90 @@ class RefLayouts:
             items = [{"k": "int", "leaf": LEAF["u32"], "wty": "u32", "name": "decompressed_size", "synthetic": True},
                      {"k": "zlib", "items": items}]
         return items
+
+
+# ----------------------------------------------------------------------------------------------
+# size intervals (C09): independent interval arithmetic over the reference layout
+# ----------------------------------------------------------------------------------------------
+INF = float("inf")
+# The codec's own definition of its leaf domains (frozen; cross-checked against the generator's and the
+# runtime's constants by rule leaf.limits).  (min, max) in bytes.
+LEAF_LIMITS = {
+    "cstring": (1, 256), "sizedcstring": (5, 4 + 8000), "string": (1, 257), "packedguid": (1, 9), "guid": (8, 8), "datetime": (4, 4),
+}
+BUILTIN_LIMITS = {
+    "AuraMask": (4, 4 + 32 * 4), "EnchantMask": (2, 2 + 16 * 2), "NamedGuid": (8, 8008), "VariableItemRandomProperty": (4, 8),
+    "CacheMask": (4, 4 + 32 * 4), "MonsterMoveSplines": (4, INF), "AchievementDoneArray": (0, INF), "AchievementInProgressArray": (0, INF),
+    "AddonArray": (0, INF), "UpdateMask": (1, INF), "InspectTalentGearMask": (4, INF),
+}
+INT_RANGE_MAX = {"u8": 0xFF, "u16": 0xFFFF, "u32": 0xFFFFFFFF, "u64": (1 << 64) - 1, "i32": 0x7FFFFFFF, "i8": 0x7F, "i16": 0x7FFF, "i64": (1 << 63) - 1}
+
+
+class SizeCalc:
+    def __init__(self, reflayouts, endless_cap):
+        self.rl = reflayouts
+        self.cap = endless_cap
+        self._structs = {}
+
+    def item(self, it, decls):
+        k = it["k"]
+        if k in ("int", "float", "bool"):
+            w = it["leaf"][1]
+            return (w, w)
+        if k in LEAF_LIMITS:
+            return LEAF_LIMITS[k]
+        if k == "builtin":
+            return BUILTIN_LIMITS[it["bname"]]
+        if k in ("enum", "flag"):
+            w = BASIC_INT[it["wire"]][0]
+            return (w, w)
+        if k == "struct":
+            return self.container(it["obj"].ast)
+        if k == "array":
+            emin, emax = self.item(it["elem"], decls)
+            c = it["count"]
+            extra = 4 + 8 if it.get("compressed") else 0
+            if c[0] == "fixed":
+                return (emin * c[1] + extra, emax * c[1] + extra)
+            if c[0] == "field":
+                cd = decls.get(c[1])
+                mx = INT_RANGE_MAX.get(cd["wty"], INF) if cd else INF
+                return (extra, emax * mx + extra)
+            return (extra, INF)
+        if k == "switch":
+            lo, hi = INF, 0
+            for en, sub in it["table"].items():
+                a, b = self.seq(sub, decls)
+                lo, hi = min(lo, a), max(hi, b)
+            return (lo, hi)
+        if k == "flagif":
+            # any subset of flags: each chain contributes between 0 (no bit set -> else) and the largest arm
+            lo, hi = self.seq(it["else"], decls)
+            for ens, sub in it["arms"]:
+                a, b = self.seq(sub, decls)
+                lo, hi = min(lo, a), max(hi, b)
+            return (lo, hi)
+        if k == "optional":
+            a, b = self.seq(it["items"], decls)
+            return (0, b)
+        if k == "zlib":
+            # any zlib stream is at least 2 (header) + 2 (empty final deflate block) + 4 (adler32) bytes
+            return (8, INF)
+        raise WowmError(f"size of {k}")
+
+    def seq(self, items, decls):
+        lo = hi = 0
+        for it in items:
+            if it.get("name"):
+                decls[it["name"]] = it
+            a, b = self.item(it, decls)
+            lo += a
+            hi += b
+        return (lo, hi)
+
+    def container(self, c):
+        key = id(c)
+        if key not in self._structs:
+            items = self.rl.container(c)
+            self._structs[key] = self.seq(items, {})
+        return self._structs[key]
